@@ -33,7 +33,7 @@ All twenty properties are claimed in `MANIFEST.json`; `not_applicable` is empty.
 | C02 | same, SpecEnc (`specFile`) | `write_layout`, `read_of_reference`, `rewrite_identity`, `write_read_write` | the Lean reference encoder is compared byte for byte with an independent Python one (`harness/refenc.py`) |
 | C03 | Stream, Body (windows) | `window_eq_slice`, `stream_eq_bytes`, `stream_window_eq_slice`, `cache_neutral`, `consumption_bound`, rejection lemmas | time→frame rounding evaluated at `Float` |
 | C04 | Body (v0.0 / v0.1), SpecEnc (`specFileV01`, `specFileV00`) | `readV01_enc`, `legacy_rewrite_v01`, `readV00_enc`, `legacy_rewrite_v00`, `other_version_refused`, `v00_window_ignored`, `v01_window_eq_slice`, `legacy_stream_eq_bytes` | numpy `column_stack` / `ma.concatenate` error behaviour on irregular v0.0 files |
-| C05 | JS | `js_index`, `js_conf_index`, `jsDims_eq`, `js_agrees_v02`, `js_agrees_v01` | `binary-parser` stand-in |
+| C05 | JS | `js_index`, `js_conf_index`, `jsDims_eq`, `js_agrees_v02`, `js_agrees_v01`, `js_v00_enc`, `js_agrees_v00` | `binary-parser` stand-in; the version switch (`hcls`) evaluated on every pattern around the band edges |
 | C06 | Cache | `read_pure`, `results_disjoint`, `mutation_local`, `other_calls_preserve`, `pose_independent_of_cache` | md5 idealised injective |
 | C07 | Prog (`Rel`/`Blind`/`SkipFree`), Stream | `truncated_rejected`, `truncated_rejected_stream_full`, `trailing_ignored(_any)`, `truncated_window_stream(_slice)` (via `Proofs/StreamRev.sr_agree`), `truncated_window_stream_complete`, `truncated_window_stream_any_cache`, `cache_stays_ok` (every cache state, and "raises when the intact read raises": `Proofs/StreamWarm.lean`) | — |
 | C08 | PoseOps | `backends_agree`, `convert_eq`, `missing_all_dims_iff_conf_zero`, `getPoints/selectFrames/sliceStep_agree`, `matmul_point_view` | torch / tf primitives |
@@ -43,11 +43,11 @@ All twenty properties are claimed in `MANIFEST.json`; `not_applicable` is empty.
 | C12 | PoseSeq (+ all body models) | `step_inv`, `run_inv`, `wf_pointwise`, `fits_of_inv`, `serialisable`, `normalize_is_transform`, `normalizeDistribution_is_transform`, `unnormalizeDistribution_is_transform`, `normalize_wf` … | dropouts' draws, torch / tf bodies |
 | C13 | Normalize, Normalize3D | `normalize_post`, `normalize_similarity_invariant`, `distribution_mean_zero`, `distribution_std_one`, `unnormalize_inverse`, `normalizeDistribution_post`, `normalizeDistribution_post_all`, `line_p1_at_origin`, `plane_at_z0_partial`, `line_on_negative_y`, `normalize3D_translation_invariant`, `normalize3D_scale_invariant`, `not_rotation_invariant` | float rounding; `arctan2` / `from_euler` by algebraic meaning; body-level distribution theorem for axes (0,1,2) |
 | C14 | Interp | `linear_affine_exact`, `linear_identity_at_observations`, `linear_within_neighbours`, `interp_frames_fps`, `linspace_ends`, `track_zero_outside_window`, `before_window` | quadratic / cubic interpolants (scipy) |
-| C15 | Spatial, PoseOps | `bbox_tight`, `focus_min_zero`, `flip_neg_only`, `flip_involutive`, `matmul_id_2/3`, `matmul_linear_2/3`, `augment_id_when_std_zero` | cos / sin of the drawn angle |
+| C15 | Spatial, PoseOps | `bbox_tight`, `focus_min_zero`, `flip_neg_only`, `flip_involutive`, `matmul_id_2/3`, `matmul_linear_2/3`, `augment_id_when_std_zero`, `focusBody_spec`, `ceil_extent_spec` | cos / sin of the drawn angle |
 | C16 | Frames, PoseOps | `select_exact`, `step_exact`, `dropout_kept`, `dropout_length`, `dropout_count`, `dropout_keeps_one`, `tf_dropout_kept`, `tf_dropout_keeps_one` | the random draws themselves |
 | C17 | Represent | `…_missing_zero` (4), `…_not_nan` (3), `distance_formula`, `angle_formula`, `innerAngle_formula`, `pointLine_formula` (Heron), `limbPoints_spec`, `limbPoints_in_range`, `mem_trianglePoints`, `output_size_is_row_count`, `pointsRep_row`, `groupEmbeds_entry`; end to end (`poseRepresentation`): `forward_shape`, `forward_point_entry`, `forward_limb_entry`, `forward_triple_entry` | IEEE overflow / `acos(1+ε)`; `atan`, `acos` |
 | C18 | Concurrent | `step_inv`, `reads_isolated(_gen)`, `finishes_after_two_steps` | preemption inside a source line |
-| C19 | OpenPose | `locate_offset`, `openpose_cell`, `openpose_absent`, `openpose_present`, `openpose_short_component`, `loaded_meta`, `frame_id_conforming`, `frame_id_last_group`, `frame_id_documented` | JSON parsing |
+| C19 | OpenPose | `locate_offset`, `openpose_cell`, `openpose_absent`, `openpose_present`, `openpose_short_component`, `loaded_meta`, `frame_id_conforming`, `frame_id_last_group`, `frame_id_documented`, `loopPerson_cell`, `opCell_eq_loop` (the literal loops = the closed form) | JSON parsing |
 | C20 | Collate | `collate_masked`, `collate_ints`, `collate_strings`, `collate_masked_field`, `padData_*` | torch `stack` / `cat` |
 
 Helper lemmas live in `Proofs/` (codec algebra `Codec*.lean`, stream simulation `Stream*.lean`, windows `Window*.lean`, nested-array toolkit
